@@ -6,7 +6,7 @@ from hypothesis import strategies as st
 
 from vf.core import Obs
 from vf.lab import LETTERS, lab_spec, real_idx
-from vf.prog import World, execute, expect_sequential, expect_transfer, flat_pairs, op_direct, op_distribute, op_evo, op_transfer, resolve, trough_indices, vs_mixed
+from vf.prog import ops_list, World, execute, expect_sequential, expect_transfer, flat_pairs, op_direct, op_distribute, op_evo, op_transfer, resolve, trough_indices, vs_mixed
 
 PID = "C02"
 RULE = (
@@ -62,7 +62,7 @@ def _case(draw, focus, tier="quick"):
         fop = op_evo(vs).map(lambda o: dict(o, op=focus))
     ops = st.one_of(fop, fop, anyop)
     device = "evo" if focus.startswith("evo_") else draw(st.sampled_from(["evo", "fluent"]))
-    return {"labs": labs, "device": device, "q": q, "ops": draw(st.lists(ops, min_size=1, max_size=12 if tier == "quick" else 25))}
+    return {"labs": labs, "device": device, "q": q, "ops": draw(ops_list(ops, 1, 12 if tier == "quick" else 25))}
 
 
 def strategy(tier, stratum):
